@@ -32,6 +32,8 @@ type Scenario struct {
 	StoreYield  bool `json:"store_yield,omitempty"`
 	// StoreCtx: the storage fails every callback with the context's error once cancelled.
 	StoreCtx bool `json:"store_ctx,omitempty"`
+	// Delay: deviations are delays (verifshim.RunOpts.Delay) instead of single preemptions.
+	Delay bool `json:"delay,omitempty"`
 }
 
 // Dev is one deviation from the default schedule.
@@ -124,7 +126,7 @@ func RunOnce(sc *Scenario, s Sched) *Obs {
 		cancel()
 	}
 	execReturned := false
-	ro := verifshim.RunOpts{Devs: map[int]int{}, EventStep: -1}
+	ro := verifshim.RunOpts{Devs: map[int]int{}, EventStep: -1, Delay: sc.Delay}
 	for _, d := range s.Devs {
 		ro.Devs[d.Step] = d.Alt
 	}
